@@ -791,7 +791,7 @@ func cmdEncoder(f hx.Flags, r *hx.Result) {
 			e.Fields = fields
 			hasCtx := rng.Intn(3) == 0
 			if hasCtx {
-				e.CtxString = []string{"trace-abc", "a=b||c", "ctx string"}[rng.Intn(3)]
+				e.CtxString = []string{"trace-abc", "a=b||c", "ctx string", "ends-with-separator||", "||", "x|", "tr=1||sp=2||", "=", "[INFO]"}[rng.Intn(9)]
 			}
 			nctx := 0
 			switch rng.Intn(6) {
